@@ -377,6 +377,11 @@ func (p *parser) validateBinaryType(binaryExp *BinaryExpression) bool {
 
 	errCount := len(p.errors)
 	switch op {
+	case OP_EQ, OP_NOT_EQ:
+		if leftType == NONE_TYPE {
+			msg := fmt.Sprintf("%q takes operands with a value, found %s", op, leftType)
+			p.appendErrorForToken(msg, tok)
+		}
 	case OP_PLUS:
 		if leftType != NUM_TYPE && leftType != STRING_TYPE && leftType.Name != ARRAY {
 			p.appendErrorForToken(`"+" takes num, string or array type, found `+leftType.String(), tok)
@@ -441,9 +446,14 @@ func (p *parser) parseArrayLiteral() Node {
 	elements := []Node{}
 	tt := p.cur.TokenType()
 	for tt != lexer.RBRACKET && tt != lexer.EOF {
+		elTok := p.cur
 		n := p.parseExprWSS()
 		if n == nil {
 			return nil // previous error
+		}
+		if n.Type() == NONE_TYPE {
+			p.appendErrorForToken("invalid array element, expression has no value", elTok)
+			return nil
 		}
 		elements = append(elements, n)
 		multi = append(multi, multilineEl)
@@ -540,9 +550,14 @@ func (p *parser) parseMapPairs(mapLit *MapLiteral) bool {
 		p.assertToken(lexer.COLON)
 		p.advance() // advance past COLON
 
+		valTok := p.cur
 		n := p.parseExprWSS()
 		if n == nil {
 			return false // previous error
+		}
+		if n.Type() == NONE_TYPE {
+			p.appendErrorForToken("invalid map value, expression has no value", valTok)
+			return false
 		}
 		mapLit.Pairs[key] = n
 		mapLit.Order = append(mapLit.Order, key)
